@@ -130,6 +130,12 @@ def check_hermite_init(reg, src, prop):
         # stated through the piece's own evaluation (robust to how the fields are laid out): built from (t0, t1, p0, p1, m0, m1) it takes
         # the value p0 / p1 and the slope m0 / m1 at t0 / t1 -- the data of each end stay with that end, for either orientation
         s_.assume(t0 != t1)
+        # ownership: a piece is built once and answers queries for the rest of the system's life, while its builder goes on to the next
+        # step with the same buffers -- the piece holds its own copies, none of its fields is one of the caller's array objects
+        shared = sorted(f for f, fv in s_.obj(v).fields.items() if any(fv is a for a in vals))
+        reg.ground(pre + "piece-holds-private-copies-of-its-data#%d" % k, "frame", "CubicHermiteInterp.__init__", not shared,
+                   detail="fields that are the caller's own array objects: %s" % (shared or "none"),
+                   backend="executor-ownership", model=dict(shared_fields=shared, note="build a piece from ndarrays, then write into those arrays in place: the piece changes") if shared else None)
         for meth, at, want, what in (("__call__", t0, p0, "value-at-t0-is-p0"), ("__call__", t1, p1, "value-at-t1-is-p1"), ("grad", t0, m0, "slope-at-t0-is-m0"), ("grad", t1, m1, "slope-at-t1-is-m1")):
             for j, (s2, r) in enumerate(ex.call_method(BoundMethod(v, meth), [at], {}, s_.fork(), ctx, None)):
                 ex.prove(s2, ctx, (r == want) if z3.is_expr(r) and not isinstance(r, Raised) else False, "post", "%s#%d.%d" % (what, k, j))
